@@ -52,7 +52,9 @@ TRUSTED = ['hand models Model/CGenExpr.v (elab, low, emit_fn) — compared per r
            'real CFG with irsem_py)',
            'the reading of C11 in Spec/CIntSpec.v + Spec/CExprSpec.v (cross-checked with the Python reading and gcc)',
            'tools/irimport.py, tools/irsem_py.py, gcc -O0 with -fsanitize=undefined as the statement oracle']
-ASSUMPTIONS = ['implementation-defined behaviour as gcc: signed conversion wraps, >> of negatives is arithmetic',
+ASSUMPTIONS = ['implementation-defined behaviour as gcc: signed conversion wraps, >> of negatives is arithmetic (gcc and ppci '
+               'both shift arithmetically; the TYPE of a shift - the promoted left operand, also for <<= and >>= - is not '
+               'implementation-defined, C11 6.5.7p3, and is what the shift family checks with negative left values)',
                'char is signed, 8 bits; short 16 bits (CContext.type_size_map literals)',
                '6.5p2 (unsequenced conflicting accesses) is undefined: such expressions are outside the statement']
 TARGETS = ['x86_64', 'arm', 'msp430']
@@ -730,6 +732,44 @@ def search(ctx, cases=None, n_extra=0, depth=6):
     return stats
 
 
+# ------------------------------------------------------------------ shift family: << >> <<= >>= x every operand type pair
+def shift_family(ctx, full):
+    """`LT f(LT a0, RT a1) { return a0 OP a1; }` and `{ a0 OP= a1; return a0; }` for every signed/unsigned x rank
+    combination of left and right operand type, negative and large left values, counts 0..bits: real IR vs the spec
+    (UB - negative << , count >= width - is filtered by the spec; >> of a negative value is arithmetic)"""
+    stats = {'functions': 0, 'compared': 0, 'violations': 0, 'known_class_hits': 0}
+    k = 0
+    for march in TARGETS:
+        dm = target(march)['dm']
+        for lt in S.TYPES:
+            for rtt in S.TYPES:
+                for op in ('<<', '>>'):
+                    for compound in (False, True):
+                        k += 1
+                        if not full and (k % 3) and not (compound and op == '>>' and S.signed(dm, lt) != S.signed(dm, rtt)):
+                            continue
+                        e = ('asgop', op, 0, ('var', 1)) if compound else ('bin', op, ('var', 0), ('var', 1))
+                        te = [lt, rtt]
+                        lo, hi = S.limits(dm, lt)
+                        lvals = [v for v in (-64, -1, lo, lo + 1, 64, 1, hi, hi // 2 + 1, 0) if lo <= v <= hi]
+                        vecs = []
+                        for a in lvals:
+                            for n in (0, 1, 2, 5, 15):
+                                if not S.fits(dm, rtt, n):
+                                    continue
+                                r = ceval(dm, te, (a, n), e)
+                                if r is not None:
+                                    vecs.append(((a, n), r[0]))
+                        if not vecs:
+                            continue
+                        stats['functions'] += 1
+                        stats['compared'] += check_real(ctx, march, te, lt, e, vecs, stats)
+    ctx.cov['evaluations'] += stats['compared']
+    ctx.cov['distinct_nontrivial'] += stats['compared']
+    ctx.cov['stages']['shift_family'] = stats
+    return stats
+
+
 # ------------------------------------------------------------------ gcc: the spec against a real C compiler (LP64)
 def gcc_run(src, timeout=120, sanitize=False):
     with tempfile.TemporaryDirectory() as d:
@@ -829,7 +869,12 @@ class ProgGen:
             if depth <= 0 or r < 0.35:
                 out.append('%s = %s;' % (lhs, self.expr(vars_, 2)))
             elif r < 0.45:
-                out.append('%s %s= %s;' % (rng.choice(wr[:2]), rng.choice(['+', '-', '^', '|', '&']), self.expr(vars_, 2)))
+                if rng.random() < 0.4:     # compound shift: the type is the promoted LEFT operand whatever the count's type
+                    out.append('%s >>= ((%s)(%s) & 7);' % (rng.choice(wr[:4]), rng.choice(['unsigned int', 'unsigned long long',
+                                                                                         'unsigned char', 'int']),
+                                                           self.expr(vars_, 1)))
+                else:
+                    out.append('%s %s= %s;' % (rng.choice(wr[:2]), rng.choice(['+', '-', '^', '|', '&']), self.expr(vars_, 2)))
             elif r < 0.60:
                 out.append('if (%s) { %s } else { %s }' % (self.expr(vars_, 2), ' '.join(self.stmts(vars_, depth - 1, 2)),
                                                            ' '.join(self.stmts(vars_, depth - 1, 1))))
@@ -1817,6 +1862,7 @@ def run(ctx):
     gcc_spec_validation(ctx, cases)
     lap('spec_vs_gcc')
     search(ctx, cases, n_extra=3000 if deep else 600)
+    shift_family(ctx, deep)
     lap('search')
     if ok:
         statements_model(ctx, 900 if deep else 45, 300 if deep else 45)
